@@ -58,6 +58,7 @@ def driver_main(spec_path: str) -> int:
                 ignore_all=bool(st.ignore_all),
                 thash=_hex(st.trans_dep_hash),
                 meta_thash=_hex(st.meta.trans_dep_hash) if st.meta is not None else "",
+                sdo=_hex(st.suppressed_deps_opts()),
                 meta_deps=list(st.meta.dependencies) if st.meta is not None else None,
                 src_hash=st.meta_source_hash or "",
             )
@@ -1040,7 +1041,8 @@ Definition t_analyze (t : list (modid * result)) (S : list modid) (src : modid -
   (env : modid -> option ihash) (m : modid) : result := match lookup t m with Some r => r | None => dflt end.
 Definition t_reach (t : list (modid * modid)) (dm : list (modid * list modid)) (m d : modid) : bool :=
   existsb (fun p => Nat.eqb (fst p) m && Nat.eqb (snd p) d) t.
-Definition t_sdo (l : list modid) (o : opts) : nat := match l with [] => 0 | _ => 1 end.
+Definition t_sdo (t : list (list modid * nat)) (l : list modid) (o : opts) : nat :=
+  match find (fun e => equiv_b (fst e) l) t with Some e => snd e | None => match l with [] => 0 | _ => 1 end end.
 Definition t_thash (t : list (modid * nat)) (dm : list (modid * list modid)) (m : modid) : nat :=
   match lookup t m with Some h => h | None => 0 end.
 Definition t_ign (t : list modid) (m : modid) (s : stamp) (o : opts) : bool := mem m t.
@@ -1058,15 +1060,15 @@ Definition t_tab (t : list (modid * list modid)) (m : modid) (v : content) (o : 
 Definition case (cont : list (modid * content)) (imps : list (modid * (content * list modid))) (an : list (modid * result))
   (sccs : list (list modid)) (rch : list (modid * modid)) (ents : list (modid * (meta * meta_ex * data)))
   (ign : list modid) (th : list (modid * nat)) (vw : list (modid * (stamp * content)))
-  (prb imp : list (modid * list modid)) (pk : list modid) (par : list (modid * modid)) (fs : FS) (o : opts) :=
+  (prb imp : list (modid * list modid)) (pk : list modid) (par : list (modid * modid)) (sd : list (list modid * nat)) (fs : FS) (o : opts) :=
   let c := mk_store ents in
-  (rechecked (t_content cont) (t_view vw) (t_imports imps) (t_tab prb) (t_analyze an) (fun _ => sccs) (t_reach rch) t_sdo (t_thash th) (t_ign ign) (t_pkg pk) (t_par par) c fs o,
-   report fs (fst (run (t_content cont) (t_view vw) (t_imports imps) (t_tab prb) (t_analyze an) (fun _ => sccs) (t_reach rch) t_sdo (t_thash th) (t_ign ign) (t_pkg pk) (t_par par) c fs o 1))).
+  (rechecked (t_content cont) (t_view vw) (t_imports imps) (t_tab prb) (t_analyze an) (fun _ => sccs) (t_reach rch) (t_sdo sd) (t_thash th) (t_ign ign) (t_pkg pk) (t_par par) c fs o,
+   report fs (fst (run (t_content cont) (t_view vw) (t_imports imps) (t_tab prb) (t_analyze an) (fun _ => sccs) (t_reach rch) (t_sdo sd) (t_thash th) (t_ign ign) (t_pkg pk) (t_par par) c fs o 1))).
 (* the decidable side conditions of the positive theorem: SccFresh (F11), ProbeFresh (F6), KindStable (F7), ImplicitStable (F9) *)
 Definition stab (cont : list (modid * content)) (imps : list (modid * (content * list modid))) (an : list (modid * result))
   (sccs : list (list modid)) (rch : list (modid * modid)) (ents : list (modid * (meta * meta_ex * data)))
   (ign : list modid) (th : list (modid * nat)) (vw : list (modid * (stamp * content)))
-  (prb imp : list (modid * list modid)) (pk : list modid) (par : list (modid * modid)) (fs : FS) (o : opts) :=
+  (prb imp : list (modid * list modid)) (pk : list modid) (par : list (modid * modid)) (sd : list (list modid * nat)) (fs : FS) (o : opts) :=
   let c := mk_store ents in
   (scc_stable (t_content cont) (t_view vw) (t_imports imps) (t_tab prb) (fun _ => sccs) (t_ign ign) (t_pkg pk) (t_par par) c o fs,
    probe_fresh (t_content cont) (t_view vw) (t_tab prb) (t_ign ign) c o fs,
@@ -1134,6 +1136,12 @@ def model_cases(h: dict, res: dict) -> list[dict]:
             try:
                 cont, imps, an, fs, ents, vw, prb, imp = [], [], [], [], [], [], [], []
                 universe = {mod_of_path(f) for st_ in h["states"] for f in st_["files"]}
+                # suppressed_deps_opts as observed NOW, keyed by the set of (non-indirect) suppressed modules it was computed for
+                sd = []
+                for m in user:
+                    pm_ = w["pre"][m]
+                    sup = [d for d in (pm_.get("supp") or []) if pm_["prio"].get(d) != 30]
+                    sd.append(f"({cl(mods(d) for d in sup)}, {0 if not pm_.get('sdo') else I(('sdo', pm_['sdo']))})")
                 pk = [mods(m) for m in user if os.path.basename(str(w["pre"][m].get("rel"))).startswith("__init__.")]
                 par = [f"({mods(u)}, {mods(u.rsplit('.', 1)[0])})" for u in sorted(universe) if "." in u]
                 o_txt = None
@@ -1174,7 +1182,7 @@ def model_cases(h: dict, res: dict) -> list[dict]:
                     ents.append(
                         f"({mods(m)}, (ME {I(('s', me['path'], me['mtime'], me['size']))} {I(('c', me['hash']))} "
                         f"{cl(mods(d) for d, _ in dd)} {cl(mods(d) for d in me['supp'])} {I(('o', me['options']))} {I(('v', me['version']))} "
-                        f"{I(('p', me['plugin']))} {0 if me['sdo'] == '' else 1} {I(('i', me['ih']))} {cl(I(('i', x)) for _, x in dd)} {I(('t', me['thash']))} "
+                        f"{I(('p', me['plugin']))} {0 if me['sdo'] == '' else I(('sdo', me['sdo']))} {I(('i', me['ih']))} {cl(I(('i', x)) for _, x in dd)} {I(('t', me['thash']))} "
                         f"{'true' if me['ignore_all'] else 'false'} {me['data_mtime'] % 100000} {ghost.get(m, (0, [m]))[0]} {cl(mods(y) for y in ghost.get(m, (0, [m]))[1])}, "
                         f"XE {cl(mods(d) for d, _ in xd)} {cl(I(('i', x)) for _, x in xd)} {cl(I(('e', tuple(x))) for x in errs(xe['errors']))}, "
                         f"{{| d_iface := {I(('i', me['ih']))}; d_mtime := {e['data_mtime'] % 100000} |}}))")
@@ -1202,7 +1210,7 @@ def model_cases(h: dict, res: dict) -> list[dict]:
                             todo += list(edges[x])
                     reach[i] = seen
                 rch = [f"({mods(m)}, {mods(d)})" for m in user for d in user if idx[d] in reach[idx[m]]]
-                term = (f"case {cl(cont)} {cl(imps)} {cl(an)} {cl(cl(mods(m) for m in s) for s in sccs)} {cl(rch)} {cl(ents)} {cl(mods(m) for m in user if w["pre"][m].get("ignore_all"))} {cl(f"({mods(m)}, {I(('t', w['pre'][m]['thash']))})" for m in user)} {cl(vw)} {cl(prb)} {cl(imp)} {cl(pk)} {cl(par)} {cl(fs)} ({o_txt})")
+                term = (f"case {cl(cont)} {cl(imps)} {cl(an)} {cl(cl(mods(m) for m in s) for s in sccs)} {cl(rch)} {cl(ents)} {cl(mods(m) for m in user if w["pre"][m].get("ignore_all"))} {cl(f"({mods(m)}, {I(('t', w['pre'][m]['thash']))})" for m in user)} {cl(vw)} {cl(prb)} {cl(imp)} {cl(pk)} {cl(par)} {cl(sd)} {cl(fs)} ({o_txt})")
                 exp_re = sorted(mods(m) for m in set(w["rechecked_modules"]) & uset)
                 exp_rep = {mods(m): [I(("e", tuple(x))) for x in errs(w["entries"][m]["ex"]["errors"])] for m in user
                            if "ex" in w["entries"].get(m, {})}
@@ -1451,7 +1459,7 @@ def run(ctx) -> None:
         t = time.time()
         pre.build(cfgs)
         ctx.log(f"pre-warmed typeshed caches for {cfgs} ({time.time()-t:.0f}s)")
-        nh = ctx.n(int(os.environ.get("C02_QUICK_N", "6")), int(os.environ.get("C02_THOROUGH_N", "48")))
+        nh = ctx.n(int(os.environ.get("C02_QUICK_N", "6")), int(os.environ.get("C02_THOROUGH_N", "24")))
         hs = hand_histories() + [gen_history(ctx.seed, i) for i in range(nh)]
         ctx.cov["histories"] = len(hs)
         ctx.cov["hand_histories"] = len(hs) - nh
